@@ -4,6 +4,7 @@
    the log recorded from the real parser and runner is validated); IOEnv.PROBE receives the probe registry. *)
 EXTENDS CmdLineLattice, Json, IOUtils, SequencesExt
 ASSUME ndJsonSerialize(IOEnv.PROBE, <<[tests |-> Probe]>>)
-ASSUME ndJsonSerialize(IOEnv.OUT, SetToSeq({ [tok |-> v] : v \in VectorsOfLen(atoi(IOEnv.LEN)) }))
+\* IOEnv.LEN = "num": the numeric vectors (counts and seeds over the whole documented range and outside it)
+ASSUME ndJsonSerialize(IOEnv.OUT, SetToSeq({ [tok |-> v] : v \in (IF IOEnv.LEN = "num" THEN NumVectors ELSE VectorsOfLen(atoi(IOEnv.LEN))) }))
 GSpec == Start(<<>>) /\ [][UNCHANGED vars]_vars
 =============================================================================
